@@ -436,8 +436,15 @@ func checkLoaderInjective(p *core.Prog, r *core.Result) {
 		construct := fmt.Sprintf("dawn.(*Project).LoadTarget#lookup-%d", i+1)
 		okMap := core.LoadOfField(s.lk.X, pkgRoot, "Project", "targets")
 		okKey := false
-		if c, ok := s.lk.Index.(*ssa.Call); ok && core.IsMethod(c, pkgLabel, "Label", "String") {
-			okKey = requested(c.Call.Args[0], s.site)
+		key, keySite := s.lk.Index, s.site
+		// the helper may be handed the key string itself
+		if prm, ok := key.(*ssa.Parameter); ok && keySite != nil {
+			if i := paramIndex(prm.Parent(), prm); i >= 0 && i < len(keySite.Call.Args) {
+				key, keySite = keySite.Call.Args[i], nil
+			}
+		}
+		if c, ok := key.(*ssa.Call); ok && core.IsMethod(c, pkgLabel, "Label", "String") {
+			okKey = requested(c.Call.Args[0], keySite)
 		}
 		r.Check(okMap && okKey, "R4.9", construct, p.InstrPos(s.lk), "the target handed to the runner is Project.targets[l.String()] for the label l parsed from the requested string", "LoadTarget can hand out a registry entry found under a key other than the canonical string of the requested label: two label strings then name one target, the runner (which deduplicates by label string) creates two entries for it, and the target is loaded and evaluated twice in one build, concurrently")
 	}
